@@ -176,9 +176,22 @@ class C3Sem:
         self.assumed += 1
         if z3.is_false(c):
             raise Undefined()
-        if core.ENG is None:
+        eng = core.ENG
+        if eng is None:
             raise Unsupported(f"symbolic premise without engine: {c}")
-        core.ENG.assume(core.SymBool(c))
+        # no input of the current path may satisfy the premise: the path is undefined as a whole (reported as
+        # such, never claimed); otherwise the premise joins the path condition without a fork
+        m = eng.current_model()
+        if m is None or not z3.is_true(m.eval(c, model_completion=True)):
+            eng.solver.push()
+            try:
+                eng.solver.add(c)
+                unsat = eng.solver.check() == z3.unsat
+            finally:
+                eng.solver.pop()
+            if unsat:
+                raise Undefined()
+        eng.assume(core.SymBool(c))
 
     def tick(self):
         self.steps += 1
